@@ -235,3 +235,93 @@ def _readonly(op):
 
 for _op in C13_READONLY_CONTRACTS:
     REG.lemma(f"C13/readonly-contract/{_op}", props=("C13",))(_readonly(_op))
+
+
+# ---------------------------------------------------------------------------------------------- C17 / C18: registries
+from pyvc.terms import Cls  # noqa: E402
+
+
+def W18(S, ct):
+    """C18: a registered true singleton is an instance of exactly its class whose __init__ ran exactly once"""
+    return Schema("W18-registered-instance-of-its-class-initialised-once", (Cls,), lambda c: Implies(
+        S.read("tmap_has", c), And(T.cls_of(S.read("tmap_val", c)) == c, S.read("init_count", S.read("tmap_val", c)) == 1)),
+        trigger=("tmap_has", "tmap_val"))
+
+
+def W17(S, ct):
+    """C17: a live semi-singleton mapping for key (cls, k) holds an instance of exactly cls"""
+    return Schema("W17-mapped-instance-is-of-the-keyed-class", (Ref, Ref), lambda M, key: Implies(
+        S.read("smap_has", M, key), T.cls_ref(T.cls_of(S.read("smap_val", M, key))) == T.pfst(key)),
+        trigger=("smap_has", "smap_val"))
+
+
+for _op in ["TrueSingleton.__call__", "singleton.clear_true_singleton"]:
+    REG.lemma(f"C18/W18-preserved-by/{_op}", props=("C18",))(_mk(_op, [W18], [W18], "C18/W18"))
+
+
+def _other_class_untouched(op, has_f, val_f, keyclass):
+    def fn(eng):
+        """operations on one class never change what another class returns: registry entries keyed by a different class are
+        the same before and after (every outcome, also the exceptional ones)"""
+        fi, c, p, args, spec = eng.entry_path(op)
+        S = eng.pre
+        kcls = args["cls"].term if "cls" in args else T.cls_of(args["obj"].term)
+        for oi, o in enumerate(spec.outcomes):
+            if not eng.feasible(p, o.cond):
+                continue
+            q = p.copy()
+            q.assume(o.cond)
+            eng.enter_outcome(q, o, S)
+            P = q.st
+            addr = S.skolem_addr(has_f)
+            q.assume(keyclass(addr) != kcls)
+            lab = o.label or (("raises-" + str(o.exc)) if o.exc else "normal") + str(oi)
+            eng.emit(q, "lemma", f"{op}/{lab}/other-classes-untouched", And(P.read(has_f, *addr) == S.read(has_f, *addr),
+                     Implies(S.read(has_f, *addr), P.read(val_f, *addr) == S.read(val_f, *addr))),
+                     meta={"clause": "entries of every other class are unchanged"})
+    return fn
+
+
+for _op in ["TrueSingleton.__call__"]:
+    REG.lemma(f"C18/other-classes-untouched/{_op}", props=("C18",))(
+        _other_class_untouched(_op, "tmap_has", "tmap_val", lambda a: a[0]))
+
+@REG.lemma("C18/targeted-clear-leaves-other-classes", props=("C18",))
+def _(eng):
+    fi, c, p, args, spec = eng.entry_path("singleton.clear_true_singleton")
+    S = eng.pre
+    k = args["cls"].term
+    for o in spec.outcomes:
+        if o.label != "clear-one" or not eng.feasible(p, o.cond):
+            continue
+        q = p.copy()
+        q.assume(o.cond)
+        eng.enter_outcome(q, o, S)
+        c2 = T.fresh("sk_cls", Cls)
+        q.assume(c2 != k)
+        eng.emit(q, "lemma", "C18/clear-one/other-classes-keep-their-instance",
+                 And(q.st.read("tmap_has", c2) == S.read("tmap_has", c2), q.st.read("tmap_val", c2) == S.read("tmap_val", c2)),
+                 meta={"clause": "clearing one class leaves every other class's instance in place"})
+
+
+SEMI_OPS = ["_SemiSingleton.__call__", "singleton.add_mapping", "singleton.drop_semi_singleton_mapping",
+            "singleton.check_semi_singleton_entry_exists", "singleton.clear_semi_singleton"]
+for _op in SEMI_OPS:
+    REG.lemma(f"C17/W17-preserved-by/{_op}", props=("C17",))(_mk(_op, [W17], [W17], "C17/W17"))
+    REG.lemma(f"C17/other-classes-untouched/{_op}", props=("C17",))(
+        _other_class_untouched(_op, "smap_has", "smap_val", lambda a: T.cls_unref(T.pfst(a[1]))))
+
+
+@REG.lemma("C17/default-key-is-injective", props=("C17",))
+def _(eng):
+    """the default key (args, sorted-kwargs-json) of two calls is equal exactly when the positional arguments are equal and
+    the order-normalised keyword arguments are equal (A9: json.dumps(sort_keys=True) is injective modulo keyword order)"""
+    from pyvc.engine import Path
+    from pyvc.state import State
+    p = Path()
+    p.st = State("pre")
+    a1, a2, k1, k2 = z3.Consts("args1 args2 kwargs1 kwargs2", Ref)
+    eng.cur = None
+    eng.emit(p, "lemma", "C17/default-key-injective",
+             (T.mkpair(a1, T.jsonk(k1)) == T.mkpair(a2, T.jsonk(k2))) == And(a1 == a2, T.jsonk(k1) == T.jsonk(k2)),
+             meta={"clause": "tuple keys are equal iff their components are"})
